@@ -191,7 +191,7 @@ Definition key_ok (table : list argspec) (k : okey) : bool :=
   && ovalue_eqb (lookup (defaults table) (doc_kw k)) (doc_default k).
 
 Definition cli_ok (table : list argspec) : bool :=
-  match lookup (defaults table) "path" with None => true | Some _ => false end
+  match lookup (defaults table) "path" with None => negb (positional_required table) | Some _ => false end
   && (forallb (key_ok table) all_keys
   && match positional_dest table with Some d => d =? "content" | None => false end
   && ovalue_eqb (lookup (defaults table) "content") VNone).
@@ -205,6 +205,12 @@ Lemma cli_ok_no_path : lookup (defaults table) "path" = None.
 Proof.
   unfold cli_ok in Hok0. apply andb_true_iff in Hok0. destruct Hok0 as [H _].
   destruct (lookup (defaults table) "path"); [discriminate | reflexivity].
+Qed.
+
+Lemma cli_ok_not_required : positional_required table = false.
+Proof.
+  unfold cli_ok in Hok0. apply andb_true_iff in Hok0. destruct Hok0 as [H _].
+  destruct (lookup (defaults table) "path"); [discriminate | apply negb_true_iff; exact H].
 Qed.
 
 Lemma Hok : forallb (key_ok table) all_keys
@@ -478,7 +484,7 @@ Proof.
     cbn [step]. rewrite Hc, cli_ok_positional.
     destruct (groups_run ks2 (set "content" (VStr c) ns1) Idle true (or_introl eq_refl))
       as [ns2 [m2 [E2 [G2 V2]]]].
-    rewrite E2. unfold finish. rewrite (good_mode_close ns2 m2 G2).
+    rewrite E2, cli_ok_not_required. cbn [andb]. unfold finish. rewrite (good_mode_close ns2 m2 G2).
     exists (view ns2 m2). split; [reflexivity|].
     unfold view at 2 in V2. cbn [close] in V2. unfold view in V1. cbn [close] in V1.
     split.
@@ -496,7 +502,7 @@ Proof.
     assert (G : good_mode (Collect a (c :: acc))).
     { right. exists k0, a, (c :: acc). repeat split; try assumption. congruence. }
     destruct (groups_run ks2 ns1 (Collect a (c :: acc)) false G) as [ns2 [m2 [E2 [G2 V2]]]].
-    rewrite E2. unfold finish. rewrite (good_mode_close ns2 m2 G2).
+    rewrite E2, cli_ok_not_required. cbn [andb]. unfold finish. rewrite (good_mode_close ns2 m2 G2).
     exists (view ns2 m2). split; [reflexivity|].
     unfold view at 2 in V2. cbn [close] in V2. unfold view in V1. cbn [close] in V1.
     destruct acc as [|x acc']; [congruence|]. cbn [rev] in V2. rewrite Hdest0 in V1, V2.
